@@ -70,6 +70,15 @@ fn scenario(seed: u64) {
         if hb > 0 || hm > 0 {
             prog.push((false, hb, hm));
         }
+        // an acknowledgement accounted before its delivery: the decrement first (the counters
+        // wrap and look full), the matching increment later
+        if rng.next() % 4 == 0 {
+            let (b, m) = (rng.range(0, max_bytes.min(16)), rng.range(1, 2));
+            let at = rng.range(0, prog.len() as u64) as usize;
+            prog.insert(at, (false, b, m));
+            let back = rng.range(at as u64 + 1, prog.len() as u64) as usize;
+            prog.insert(back, (true, b, m));
+        }
         programs.push(prog);
     }
     fc.inc(init_bytes, init_msgs);
